@@ -294,6 +294,23 @@ fn register_contrib(t: &mut Tera) {
     t.register_filter("spaceless", tera_contrib::regex::spaceless);
 }
 
+const ONE_OFF_ONLY: [(&str, &str); 14] = [
+    ("oneoff/comment-only", "{##}"),
+    ("oneoff/comment-in-text", "a{# c #}b & <c>"),
+    ("oneoff/comment-trimming", "a {#- c -#} b"),
+    ("oneoff/comment-holding-tags", "{# {{ a }} {% if %} #}x"),
+    ("oneoff/comment-unterminated", "text {# never closed"),
+    ("oneoff/variable-unterminated", "text {{ a "),
+    ("oneoff/tag-unterminated", "text {% if a "),
+    ("oneoff/raw-only", "{% raw %}{{ a }}{# c #}{% endraw %}"),
+    ("oneoff/empty", ""),
+    ("oneoff/lone-braces", "a { b } c {"),
+    ("oneoff/unknown-filter", "x{{ a | nosuchfilter }}"),
+    ("oneoff/include-missing", "x{% include \"nosuch.html\" %}"),
+    ("oneoff/extends", "{% extends \"base.html\" %}{% block head %}one-off{% endblock %}"),
+    ("oneoff/own-component", "{% component mine(v) %}<{{ v }}>{% endcomponent mine %}{{ <mine v={a} /> }}"),
+];
+
 struct World {
     tera: Tera,
     /// the same instance before anything was rendered on it
@@ -344,6 +361,18 @@ fn build_world(large_n: usize) -> World {
         }
         for ae in [true, false] {
             calls.push(Call::Str(n.clone(), s.clone(), ae));
+        }
+    }
+    // sources that only make sense on the fly: nothing but a comment, comments between text, raw
+    // only, nothing at all, and sources the engine refuses (unterminated comment / variable / tag,
+    // unknown filter, missing include target, extends): both channels must give the same bytes or
+    // both must fail (seeded change C18-10 gave render_str a shortcut for sources without `{{` / `{%`
+    // that forgot comments; render_str_to had none)
+    for (n, s) in ONE_OFF_ONLY {
+        sources.insert(n.to_string(), s.to_string());
+        purposes.insert(n.to_string(), "one-off source (not registered)");
+        for ae in [true, false] {
+            calls.push(Call::Str(n.to_string(), s.to_string(), ae));
         }
     }
     for (c, body, style) in COMPONENT_CALLS {
